@@ -49,9 +49,9 @@ BOUND = (
     "and one hour before them) on each of the 7 lattice days + base-1d 12:00 (before everything) + base+4d "
     "00:00 (Sun/Mon midnight) + base+7d 03:00 (after everything); every file is queried (bid and ask, source "
     "and data handler) at all 59 instants of its window, then again in descending order with every instant "
-    "asked twice (lru_cache). Every dataset with at least 2 bars is also loaded (a) with whole-number opens written WITHOUT a "
+    "asked twice (lru_cache). Every EXTENDED dataset (see below) with at least 2 bars is also loaded (a) with whole-number opens written WITHOUT a "
     "decimal point next to closes that carry .75 (integer Open column, float Close column), (b) with its first open set to "
-    "exactly 0.0 and its second close to a negative number, and every dataset with at least 3 bars and a free lattice day "
+    "exactly 0.0 and its second close to a negative number, and every extended dataset with at least 3 bars and a free lattice day "
     "between its first and last bar (c) next to a second asset with the SAME first day, last day and row count but another "
     "day in between, on one source, asked alternately with either asset first. "
     "THOROUGH (exhaustive: 73 070 non-empty files x 59 instants = 4 311 130 cases, + 8 header-only files). "
@@ -456,7 +456,7 @@ def eval_unit(unit, acc, base):
 
     # whole-number opens written WITHOUT a decimal point next to fractional closes (the Open column parses as integers, the Close
     # column as floats): every cell is read at its own value
-    if k >= 2:
+    if k >= 2 and unit.get("ext"):
         int_rows = [[d, o, (c + 0.75) if c is not None else None, (a + 0.375) if a is not None else None] for d, o, c, a in rows]
         dI = _write_dir(udir, "I", {"A": csv_text(int_rows, lat, int_open=True)})
         int_spec = [spec_price(int_rows, adjust, t, lat) for t in INSTANTS]
@@ -471,7 +471,7 @@ def eval_unit(unit, acc, base):
 
     # two assets whose files have the SAME first day, last day and number of rows but a different day in between, on one source,
     # asked alternately (each first at every other instant): an asset's answer comes from its own rows
-    inner = [x for x in range(days[0] + 1, days[-1]) if x not in bar_days] if k >= 3 else []
+    inner = [x for x in range(days[0] + 1, days[-1]) if x not in bar_days] if (k >= 3 and unit.get("ext")) else []
     if inner:
         cdays = sorted([days[0], inner[0]] + list(days[2:]))
         crows = make_rows("B", cdays, [[1, 1, 1]] * k)
